@@ -50,8 +50,8 @@ Reexpansion(bs, N) == IF N = 0 THEN BZero(1, 0) ELSE RIter(bs, N, BMono(1, N, 1,
 (* the first coefficients in closed form, as a check of the derivation              *)
 ReexpansionKnown(bs_0) == Let1(bs_0, LAMBDA bs :
 
-  LET R == Reexpansion(bs, 4)
-      b0 == bs[1]
+  Let1(Reexpansion(bs, 4), LAMBDA R :
+  LET b0 == bs[1]
       b1 == bs[2]
       b2 == bs[3]
       c(i, j) == R[i + 1][j + 1][1][1]
@@ -60,7 +60,7 @@ ReexpansionKnown(bs_0) == Let1(bs_0, LAMBDA bs :
       /\ c(3, 1) = b1 /\ c(3, 2) = QMul(b0, b0)
       /\ c(4, 1) = b2 /\ c(4, 2) = QMul(QF(5, 2), QMul(b0, b1)) /\ c(4, 3) = QPow(b0, 3)
       /\ \A i \in 0..4 : \A j \in 0..4 :
-            (<<i, j>> \notin {<<1, 0>>, <<2, 1>>, <<3, 1>>, <<3, 2>>, <<4, 1>>, <<4, 2>>, <<4, 3>>}) => c(i, j) = Q0)
+            (<<i, j>> \notin {<<1, 0>>, <<2, 1>>, <<3, 1>>, <<3, 2>>, <<4, 1>>, <<4, 2>>, <<4, 3>>}) => c(i, j) = Q0))
 
 (* Gamma = gamma(R) = sum_{k < Len(gs)} gs[k+1] R^(k+1), d x d, through a'^N          *)
 RECURSIVE GammaOfRFrom(_, _, _, _, _)
@@ -69,13 +69,13 @@ GammaOfRFrom(gs_0, Rd_0, Rpow_0, k, N) == Let3(gs_0, Rd_0, Rpow_0, LAMBDA gs, Rd
   IF k + 1 > Len(gs) \/ k + 1 > N THEN BZero(Len(gs[1]), N)
   ELSE BAdd(BMul(BConstM(gs[k + 1], N), Rpow), GammaOfRFrom(gs, Rd, BMul(Rpow, Rd), k + 1, N)))
 GammaOfR(gs, bs, N) ==
-  LET Rd == BEmbed(Reexpansion(bs, N), Len(gs[1])) IN GammaOfRFrom(gs, Rd, Rd, 0, N)
+  Let1(BEmbed(Reexpansion(bs, N), Len(gs[1])), LAMBDA Rd : GammaOfRFrom(gs, Rd, Rd, 0, N))
 
 (* ---- exponentiated scheme: gamma'_j(L) for j = 0..n-1 at order n ----------------- *)
 (* gs = <<gamma_0, .., gamma_(n-1)>> (d x d), value at the rational L                   *)
 C21_GammaPrime(gs_0, bs_0, n, l_0) == Let3(gs_0, bs_0, l_0, LAMBDA gs, bs, l :
 
-  LET G == GammaOfR(gs, bs, n) IN [j \in 1..n |-> BRowEval(G, j, l, 1)])
+  Let1(GammaOfR(gs, bs, n), LAMBDA G : TLCEval([j \in 1..n |-> BRowEval(G, j, l, 1)])))
 
 (* ---- expanded scheme: K(a', L) through a'^(n-1) at order n ----------------------- *)
 RECURSIVE KIter(_, _, _, _)
@@ -89,9 +89,8 @@ PathOrdered(gs, bs, n) ==
 (* coefficients K_0..K_(n-1) at the rational L, padded with zeros to length len           *)
 C21_Kernel(gs_0, bs_0, n, l_0, len) == Let3(gs_0, bs_0, l_0, LAMBDA gs, bs, l :
 
-  LET K == PathOrdered(gs, bs, n)
-      d == Len(gs[1])
-  IN  [j \in 1..len |-> IF j <= n THEN BRowEval(K, j - 1, l, 1) ELSE MZero(d)])
+  Let1(PathOrdered(gs, bs, n), LAMBDA K :
+    TLCEval([j \in 1..len |-> IF j <= n THEN BRowEval(K, j - 1, l, 1) ELSE MZero(Len(gs[1]))])))
 
 (* ---- QED variants ------------------------------------------------------------------ *)
 (* grid g[j+1][k+1] = gamma^(j,k) (d x d), order = <<o0, o1>>                              *)
@@ -102,21 +101,22 @@ QedTower(g_0, o1) == Let1(g_0, LAMBDA g :
 (* exponentiated: adjusted grid *)
 C21_GammaPrimeQed(g_0, o0, o1, bs_0, bsqed_0, running, l_0) == Let4(g_0, bs_0, bsqed_0, l_0, LAMBDA g, bs, bsqed, l :
 
-  LET gq == C21_GammaPrime(QcdTower(g, o0), bs, o0, l)
-      ge == IF running /\ o1 >= 1 THEN C21_GammaPrime(QedTower(g, o1), bsqed, o1, l) ELSE QedTower(g, o1)
-  IN  [j \in 1..(o0 + 1) |-> [k \in 1..(o1 + 1) |->
+  Let2(C21_GammaPrime(QcdTower(g, o0), bs, o0, l),
+       IF running /\ o1 >= 1 THEN C21_GammaPrime(QedTower(g, o1), bsqed, o1, l) ELSE QedTower(g, o1),
+       LAMBDA gq, ge :
+      TLCEval([j \in 1..(o0 + 1) |-> [k \in 1..(o1 + 1) |->
         IF k = 1 /\ j >= 2 THEN gq[j - 1]
         ELSE IF j = 1 /\ k >= 2 THEN ge[k - 1]
-        ELSE g[j][k]]])
+        ELSE g[j][k]]])))
 (* expanded: coefficient of a_s^j a_em^k, j = 0..js-1, k = 0..ks-1                          *)
 C21_KernelQed(g_0, o0, o1, bs_0, bsqed_0, running, l_0, js, ks) == Let4(g_0, bs_0, bsqed_0, l_0, LAMBDA g, bs, bsqed, l :
 
-  LET d == Len(g[1][1])
-      kq == C21_Kernel(QcdTower(g, o0), bs, o0, l, js)
-      ke == IF running /\ o1 >= 1 THEN C21_Kernel(QedTower(g, o1), bsqed, o1, l, ks)
-            ELSE [k \in 1..ks |-> IF k = 1 THEN MId(d) ELSE MZero(d)]
-  IN  [j \in 1..js |-> [k \in 1..ks |->
-        IF k = 1 THEN kq[j] ELSE IF j = 1 THEN ke[k] ELSE MZero(d)]])
+  Let2(C21_Kernel(QcdTower(g, o0), bs, o0, l, js),
+       IF running /\ o1 >= 1 THEN C21_Kernel(QedTower(g, o1), bsqed, o1, l, ks)
+       ELSE [k \in 1..ks |-> IF k = 1 THEN MId(Len(g[1][1])) ELSE MZero(Len(g[1][1]))],
+       LAMBDA kq, ke :
+      TLCEval([j \in 1..js |-> [k \in 1..ks |->
+        IF k = 1 THEN kq[j] ELSE IF j = 1 THEN ke[k] ELSE MZero(Len(g[1][1]))]])))
 
 (* ---- transcription of the implementation (for B1 and conformance) -------------------- *)
 (* eko.scale_variations.exponentiated.gamma_variation                                     *)
@@ -138,11 +138,11 @@ GammaVariationTranscribed(gs_0, bs_0, n, l_0, Variant) == Let3(gs_0, bs_0, l_0, 
       t2 == MAdd(MScale(QMul(QScale(2, b0), l), g(1)),
                  MScale(QAdd(QMul(b1, l), QMul(QMul(b0, b0), l2)), g(0)))
       t1 == MScale(QMul(b0, l), g(0))
-  IN  [j \in 1..n |->
+  IN  TLCEval([j \in 1..n |->
         CASE j = 4 -> MAdd(g(3), t3)
           [] j = 3 -> MAdd(g(2), t2)
           [] j = 2 -> MAdd(g(1), t1)
-          [] OTHER -> g(0)])
+          [] OTHER -> g(0)]))
 
 (* eko.scale_variations.expanded.variation_as1/2/3 through singlet_variation             *)
 KernelTranscribed(gs_0, bs_0, n, l_0, len, Variant) == Let3(gs_0, bs_0, l_0, LAMBDA gs, bs, l :
@@ -163,12 +163,12 @@ KernelTranscribed(gs_0, bs_0, n, l_0, len, Variant) == Let3(gs_0, bs_0, l_0, LAM
                           MScale(QMul(QF(1, 2), l2), MSumSeq(d, << MScale(b1, g(0)), MScale(QScale(2, b0), g(1)), g1g0, g0g1 >>)),
                           MScale(QMul(QF(1, 6), l3), MSumSeq(d, << MScale(QScale(2, QMul(b0, b0)), g(0)),
                                                                    MScale(QScale(IF Variant = "b0g0e2" THEN 2 ELSE 3, b0), g0e2), g0e3 >>)) >>)
-  IN  [j \in 1..len |->
+  IN  TLCEval([j \in 1..len |->
         CASE j = 1 -> MId(d)
           [] j = 2 /\ n >= 2 -> k1
           [] j = 3 /\ n >= 3 -> k2
           [] j = 4 /\ n >= 4 -> k3
-          [] OTHER -> MZero(d)])
+          [] OTHER -> MZero(d)]))
 
 SeqMEq(s_0, t_0) == Let2(s_0, t_0, LAMBDA s, t :
  Len(s) = Len(t) /\ \A k \in 1..Len(s) : MEq(s[k], t[k]))
